@@ -123,6 +123,12 @@ func (r *realPatcher) patchPodBatchLabel(pods []*corev1.Pod, ctx *batchcontext.B
 			klog.InfoS("Pod batchID is not a number, skip patching", "pod", klog.KObj(pod), "rollout", r.logKey)
 			continue
 		}
+		if podBatchID < 1 || podBatchID > len(plannedUpdatedReplicasForBatches) {
+			// labels are user-writable: a batch-id outside the release plan must not be used as an index
+			klog.InfoS("Pod batchID is out of the range of release plan, skip patching", "pod", klog.KObj(pod),
+				"batchID", podBatchID, "batches", len(plannedUpdatedReplicasForBatches), "rollout", r.logKey)
+			continue
+		}
 		plannedUpdatedReplicasForBatches[podBatchID-1]--
 	}
 	klog.InfoS("updatedButUnpatchedPods amount calculated", "amount", len(updatedButUnpatchedPods),
